@@ -196,20 +196,30 @@ theorem flagsRot_af_irrel (g : Regs) (af' : Nat) (r : Reg8) (x : Nat) (hx : x < 
   · rw [q5, p5, b5]
   · rw [q6, p6, b6]
 
+def rottBodyAt (k : Rt2) (r : Reg8) (oa ob oc : Nat) (o : Nat → Nat) : List (Nat × Instr) :=
+  [(oa, Instr.alu8i AluOp.and (R8.lo 0) 16), (ob, Instr.alu8i AluOp.add (R8.lo 0) 240)] ++
+    (((oc, Instr.sh8 k.host (hostR8 r) 1) :: pipeAt o 0xef 0x10) ++ [(o 10, Instr.alu8i AluOp.and (R8.lo 0) 0x1f)])
+
 def rottBody (k : Rt2) (r : Reg8) : List (Nat × Instr) :=
   carryPre ++ (((4, Instr.sh8 k.host (hostR8 r) 1) :: pipeAt (aluOff' 6) 0xef 0x10) ++ [(35, Instr.alu8i AluOp.and (R8.lo 0) 0x1f)])
+
+theorem rottBody_eq (k : Rt2) (r : Reg8) : rottBody k r = rottBodyAt k r 0 2 4 (aluOff' 6) := rfl
+
+theorem straight_rottBodyAt (k : Rt2) (r : Reg8) (oa ob oc : Nat) (o : Nat → Nat) : straight (rottBodyAt k r oa ob oc o) :=
+  straight_app (straight_cons _ _ _ (fun _ _ e => Instr.noConfusion e) (fun _ e => Instr.noConfusion e) (straight_one _ _ (fun _ _ e => Instr.noConfusion e) (fun _ e => Instr.noConfusion e)))
+    (straight_app (straight_cons _ _ _ (fun _ _ e => Instr.noConfusion e) (fun _ e => Instr.noConfusion e) (straight_pipe _ _ _)) (straight_al _ _ _))
 
 theorem straight_rottBody (k : Rt2) (r : Reg8) : straight (rottBody k r) :=
   straight_app straight_carryPre
     (straight_app (straight_cons _ _ _ (fun _ _ e => Instr.noConfusion e) (fun _ e => Instr.noConfusion e) (straight_pipe _ _ _)) (straight_al _ _ _))
 
 /-- carry in, rotate, carry out: the common part of RLA / RRA / RL r / RR r -/
-theorem rott_body (B : BusOps β) (k : Rt2) (r : Reg8) (e : Nat) (g : Regs) (st s3 : St β) (hs : Sim g st) (h0 : g.af % 16 = 0)
-    (hex : execList B e (rottBody k r) st = .ok s3) :
+theorem rott_body_at (B : BusOps β) (k : Rt2) (r : Reg8) (oa ob oc : Nat) (o : Nat → Nat) (e : Nat) (g : Regs) (st s3 : St β) (hs : Sim g st) (h0 : g.af % 16 = 0)
+    (hex : execList B e (rottBodyAt k r oa ob oc o) st = .ok s3) :
     ∃ af', af' / 256 % 256 = g.af / 256 % 256 ∧ af' % 16 = 0 ∧
       Sim (flagsRot (setReg { g with af := af' } r (k.res (getReg g r) g.af).1) (k.res (getReg g r) g.af) false) s3 ∧ Untouched st s3 := by
   obtain ⟨s2, hpre, hex2⟩ := execList_append B e _ _ st s3 hex
-  obtain ⟨hcf, hhi, hlo, hr, hb, hstk, hsz, _⟩ := pre_carry B 0 2 _ st s2 hs.size hpre
+  obtain ⟨hcf, hhi, hlo, hr, hb, hstk, hsz, _⟩ := pre_carry B oa ob _ st s2 hs.size hpre
   have hA := getReg_lt g .A
   have hgA : getReg g .A = g.af / 256 % 256 := by show getHi g.af = _; rw [getHi_eq]
   have hst0 : (get st 0).toNat / 256 % 256 = g.af / 256 % 256 := by have := hs.af; omega
@@ -226,13 +236,41 @@ theorem rott_body (B : BusOps β) (k : Rt2) (r : Reg8) (e : Nat) (g : Regs) (st 
     cases r
     · show getHi ((get s2 0).toNat % 65536) = getHi g.af; rw [getHi_eq, getHi_eq]; omega
     all_goals rfl
-  have hex2' : execList B e ((4, Instr.sh8 k.host (hostR8 r) 1) :: (pipeAt (aluOff' 6) 0xef 0x10 ++ [(aluOff' 6 10, Instr.alu8i AluOp.and (R8.lo 0) 0x1f)])) s2 = .ok s3 := hex2
+  have hex2' : execList B e ((oc, Instr.sh8 k.host (hostR8 r) 1) :: (pipeAt o 0xef 0x10 ++ [(o 10, Instr.alu8i AluOp.and (R8.lo 0) 0x1f)])) s2 = .ok s3 := hex2
   obtain ⟨s1, h1, hex4⟩ := execList_cons B _ _ _ _ _ _ hex2'
   obtain ⟨hs1, hu1, hc⟩ := step_rotT_sim B k r _ g.af s2 s1 _ hs2 hcf h1
   rw [hget] at hs1 hc
   have hu0 : Untouched st s2 := ⟨hb, hstk, hr 14 (by decide)⟩
-  obtain ⟨q1, q2⟩ := rot_tail B (aluOff' 6) e _ (k.res (getReg g r) g.af).1 _ s1 s3 hs1 hc hex4
+  obtain ⟨q1, q2⟩ := rot_tail B o e _ (k.res (getReg g r) g.af).1 _ s1 s3 hs1 hc hex4
   exact ⟨q1, (hu0.trans hu1).trans q2⟩
+
+theorem rott_body (B : BusOps β) (k : Rt2) (r : Reg8) (e : Nat) (g : Regs) (st s3 : St β) (hs : Sim g st) (h0 : g.af % 16 = 0)
+    (hex : execList B e (rottBody k r) st = .ok s3) :
+    ∃ af', af' / 256 % 256 = g.af / 256 % 256 ∧ af' % 16 = 0 ∧
+      Sim (flagsRot (setReg { g with af := af' } r (k.res (getReg g r) g.af).1) (k.res (getReg g r) g.af) false) s3 ∧ Untouched st s3 :=
+  rott_body_at B k r 0 2 4 (aluOff' 6) e g st s3 hs h0 hex
+
+/-- carry in, rotate, carry out, zero: the register form of RL / RR at any offsets -/
+theorem rt_body_at (B : BusOps β) (k : Rt2) (r : Reg8) (oa ob oc : Nat) (o : Nat → Nat) (z0 z1 z2 z3 e : Nat) (g : Regs) (st s6 : St β)
+    (hs : Sim g st) (h0 : g.af % 16 = 0) (hex : execList B e (rottBodyAt k r oa ob oc o ++ zTail r z0 z1 z2 z3) st = .ok s6) :
+    Sim (flagsRot (setReg g r (k.res (getReg g r) g.af).1) (k.res (getReg g r) g.af) true) s6 ∧ s6.bus = st.bus ∧ s6.stack = st.stack ∧
+    (get8 s6 (.lo 14) = 0 ∨ get8 s6 (.lo 14) = 0x80) := by
+  obtain ⟨s3, hb1, hb2⟩ := execList_append B e _ (rottBodyAt k r oa ob oc o) st s6 hex
+  obtain ⟨af', hA, hz, hs3, hu3⟩ := rott_body_at B k r oa ob oc o _ g st s3 hs h0 hb1
+  have hxlt : (k.res (getReg g r) g.af).1 < 256 :=
+    (rotT_res k _ (getReg_lt g r) g.af (mkFl (decide ((g.af % 256 &&& 16) + 240 + 0 ≥ 256))) rfl).2.2
+  rw [flagsRot_af_irrel g af' r _ hxlt _ false hA hz h0] at hs3
+  generalize hg1 : setReg g r (k.res (getReg g r) g.af).1 = g1 at hs3 ⊢
+  have hx : getReg g1 r = (k.res (getReg g r) g.af).1 := by rw [← hg1]; exact getReg_setReg_self g r _ hxlt
+  generalize hres : k.res (getReg g r) g.af = res at hs3 hx ⊢
+  have hlt : ((g1.af % 256 &&& 0x0f) ||| (if res.2 then 0x10 else 0)) < 256 := by
+    apply Nat.or_lt_two_pow (n := 8)
+    · exact Nat.lt_of_le_of_lt Nat.and_le_right (by decide)
+    · split <;> decide
+  obtain ⟨hs6, hbus, hstk, h14⟩ := ztail_body B r z0 z1 z2 z3 e (flagsRot g1 res false) (getReg g1 .A) _ (getReg_lt g1 .A) hlt
+    (rotFlagsC_pack g1 res) s3 s6 hs3 hb2
+  rw [getReg_flagsRotC, hx] at hs6
+  exact ⟨hs6, by rw [hbus, hu3.bus], by rw [hstk, hu3.stack], h14⟩
 
 /-! ### RLA, RRA -/
 
